@@ -415,7 +415,7 @@ func (in *instance) judge(e *sched.Exec) (string, string) {
 	case e.Deadlock:
 		return "deadlock", "deadlock: " + e.DeadlockAt
 	case e.Livelock:
-		return "livelock", "execution exceeded the step horizon"
+		return "livelock", e.LivelockWhy()
 	}
 	for i, rq := range in.sc.Reqs {
 		if in.pan[i] != nil {
